@@ -376,9 +376,10 @@ class MultiPort(BaseIOPort):
                 port.send(message)
 
     def _receive(self, block=True):
+        # Never block in here: receive() does the waiting.
         self._messages.extend(multi_receive(self.ports,
                                             yield_ports=self.yield_ports,
-                                            block=block))
+                                            block=False))
 
 
 def multi_receive(ports, yield_ports=False, block=True):
